@@ -1699,6 +1699,24 @@ static Type check_expression_impl(ASTNode *expr, Environment *env) {
                             return TYPE_UNKNOWN;
                         }
                         
+                        if (passed_func->param_count > 0 && !passed_func->params) {
+                            /* Built-in functions carry no parameter table: they cannot be compared with
+                             * the declared signature (and have no address to pass) */
+                            char message[256];
+                            snprintf(message, sizeof(message),
+                                    "The built-in function `%s` cannot be passed as a function value.",
+                                    arg->as.identifier);
+                            emit_context_error(
+                                "TYPE MISMATCH",
+                                arg->line,
+                                arg->column,
+                                (int)safe_strlen(arg->as.identifier),
+                                message,
+                                "Wrap it in a function of your own: fn f(x: int) -> int { return (abs x) }"
+                            );
+                            return TYPE_UNKNOWN;
+                        }
+
                         /* Create signature from passed function */
                         FunctionSignature passed_sig;
                         passed_sig.param_count = passed_func->param_count;
